@@ -324,8 +324,11 @@ func runEvalCase(c Case) (Result, string) {
 	if !o.paniced && o.err == nil {
 		if s := allowedDynamic(reflect.ValueOf(o.value), 0); s != "" {
 			r.Direct["json"] = "non-JSON dynamic type: " + s
-		} else if _, err := json.Marshal(o.value); err != nil {
+		} else if got, err := json.Marshal(o.value); err != nil {
 			r.Direct["json"] = "marshal: " + err.Error()
+		} else if want, err2 := json.Marshal(functionsAsEmptyStrings(reflect.ValueOf(o.value), 0)); err2 == nil && !jsonEqual(got, want) {
+			// function values stand for empty strings in the marshalled result
+			r.Direct["json"] = "marshals as " + trunc(string(got), 120) + " where function values must stand for empty strings: " + trunc(string(want), 120)
 		} else {
 			r.Direct["json"] = "ok"
 		}
@@ -448,6 +451,68 @@ func runEvalCase(c Case) (Result, string) {
 		line = c.ID + "|E|" + root0 + "|" + inputWire(saved) + "|" + strconv.FormatInt(clock, 10) + "|"
 	}
 	return r, line
+}
+
+func trunc(s string, n int) string {
+	if len(s) > n {
+		return s[:n] + "..."
+	}
+	return s
+}
+
+func jsonEqual(a, b []byte) bool {
+	var x, y interface{}
+	if json.Unmarshal(a, &x) != nil || json.Unmarshal(b, &y) != nil {
+		return string(a) == string(b)
+	}
+	return reflect.DeepEqual(x, y)
+}
+
+// functionsAsEmptyStrings rebuilds a result with every function value replaced by "" (what the
+// property says a function value stands for when the result is marshalled)
+func functionsAsEmptyStrings(v reflect.Value, depth int) interface{} {
+	if !v.IsValid() || depth > 200 {
+		return nil
+	}
+	if v.Type().Implements(typeCallable) {
+		if (v.Kind() == reflect.Ptr || v.Kind() == reflect.Interface) && v.IsNil() {
+			return nil
+		}
+		return ""
+	}
+	if v.Kind() == reflect.Struct && reflect.PtrTo(v.Type()).Implements(typeCallable) {
+		return ""
+	}
+	switch v.Kind() {
+	case reflect.Interface, reflect.Ptr:
+		if v.IsNil() {
+			return nil
+		}
+		return functionsAsEmptyStrings(v.Elem(), depth+1)
+	case reflect.Slice, reflect.Array:
+		if v.Kind() == reflect.Slice && v.IsNil() {
+			return nil
+		}
+		out := make([]interface{}, v.Len())
+		for i := range out {
+			out[i] = functionsAsEmptyStrings(v.Index(i), depth+1)
+		}
+		return out
+	case reflect.Map:
+		if v.Type().Key().Kind() != reflect.String {
+			return v.Interface()
+		}
+		out := map[string]interface{}{}
+		for _, k := range v.MapKeys() {
+			out[k.String()] = functionsAsEmptyStrings(v.MapIndex(k), depth+1)
+		}
+		return out
+	default:
+		if v.CanInterface() {
+			return v.Interface()
+		}
+		return nil
+	}
 }
 
 // modelSource: registered variables are bound by a block around the expression on the model side
